@@ -949,3 +949,59 @@ def closure_actuals(F, cbody, k):
                             return None
                         out.append((gb, {'k': 'copy', 'p': {'l': tup['p']['l'], 'proj': [{'f': k - 1, 'name': '', 'ty': ''}]}}))
     return out if found and out else None
+
+
+
+# ---------------------------------------------------------------- staging names, buffered writers
+STAGING_SUFFIXES = ('.copia-tmp', '.tmp')
+
+
+def is_staging_name(F, fl, op):
+    """a path that is `<something> + ".copia-tmp"` (the reserved staging suffix appended to another path's name)"""
+    b_, p_ = path_shape(F, fl, op)
+    return bool(b_) and bool(p_) and all(isinstance(x, str) and x in STAGING_SUFFIXES for x in p_) and not any(x[0] == 'const' for x in b_)
+
+
+def body_types(b):
+    """every type that occurs in the body: locals and the field types named in projections"""
+    out = {b.local_ty(i) for i in range(len(b.locals))}
+    for blk in b.blocks:
+        ops = []
+        for st in blk['stmts']:
+            ops.append(st['dst'])
+            if 'p' in st['rv']:
+                ops.append(st['rv']['p'])
+            ops.extend(o['p'] for o in st['rv'].get('ops', []) if 'p' in o)
+        t = blk['term']
+        ops.extend(a['p'] for a in t.get('args', []) if 'p' in a)
+        for pl in ops:
+            for e in pl['proj']:
+                if isinstance(e, dict) and e.get('ty'):
+                    out.add(e['ty'])
+    return out
+
+
+def buffered_writer_flushed_before(fl, target_bb):
+    """None when the body holds no `BufWriter<..File..>`; else True iff a `flush()` / `into_inner()` of a buffered writer returned
+    Ok on every way to `target_bb`.  (Bytes still in a BufWriter reach the file when it is dropped - after whatever the function
+    did in between, e.g. the rename that publishes the file.)"""
+    b = fl.body
+    if not any('BufWriter<' in ty and 'File' in ty for ty in body_types(b)):
+        return None
+    fl_calls = []
+    for fb, ft in fl.calls(lambda c: c.endswith('Write::flush') or c.endswith('BufWriter::<W>::into_inner') or c.endswith('::into_inner') or c.endswith('into_parts')
+                           or c.endswith('AsyncWriteExt::flush') or c.endswith('AsyncWriteExt::shutdown')):
+        a0 = ft['args'][0] if ft['args'] else None
+        ty = ''
+        if a0 is not None and a0['k'] != 'const':
+            ty = b.local_ty(a0['p']['l']) if not [e for e in a0['p']['proj'] if e != 'deref'] else ' '.join(e.get('ty', '') for e in a0['p']['proj'] if isinstance(e, dict))
+            cr = chase_root(fl, a0)
+            if cr is not None:
+                ty += ' ' + b.local_ty(cr[0]) + ' ' + ' '.join(e.get('ty', '') for e in cr[1] if isinstance(e, dict))
+        if 'BufWriter' in ty or 'BufWriter' in (callee(ft) or ''):
+            fl_calls.append(fb)
+    for fb in fl_calls:
+        oc = fl.outcomes(fb)
+        if oc.get('Ok') and fl.cfg.edges_guard(oc['Ok'], target_bb):
+            return True
+    return False
